@@ -39,7 +39,7 @@ ASSUMPTIONS = [
     "out_size",
     "fast groups are built with real kernel maps when bpf(2) is available",
 ]
-EXAMPLES = {"quick": 150, "thorough": 3000}
+EXAMPLES = {"quick": 150, "thorough": 10000}
 MIN_NONTRIVIAL = {"quick": 400, "thorough": 5000}
 
 
